@@ -25,8 +25,16 @@ fn etag_of(kind: &str, rng: &mut Rng) -> EtagSpec {
 
 /// A tempting forged payload: update offer + new cohorts + day + X-Retry-After, or an error status.
 fn forged_reply(rng: &mut Rng, apps: &[crate::sim::driver::AppSpec], kind: &str, is_uc: bool) -> (RespSpec, String) {
-    let variant = rng.below(4);
+    let variant = rng.below(6);
     let mut rep = match variant {
+        4 => ReplySpec::ok(BodySpec::Raw(vec![])), // nothing to parse, still nothing to trust
+        5 => {
+            // a body far larger than any genuine answer (valid JSON: whitespace padding in front of an offer)
+            let (doc, _) = gen_doc(rng, apps, Some(is_uc), true);
+            let mut b = vec![b' '; (1 << 20) + 4096 + rng.usize(1 << 20)];
+            b.extend_from_slice(&crate::sim::omaha::render_doc(&doc));
+            ReplySpec::ok(BodySpec::Raw(b))
+        }
         0 | 1 => {
             let (mut doc, _) = gen_doc(rng, apps, Some(is_uc), true);
             doc.daystart = Some(Some(9999));
@@ -154,6 +162,28 @@ pub fn run(args: &Args, r: &mut Report) {
         base.script.checks.push(gen_check(&mut rng, &apps, Path::NoUpdate, true, false, false).0);
         base.script.decisions.push(Decision::Ok(ParamsSnap::default_lib()));
         base.stop_idle += 1;
+        // in a sixth of the bases the first offer is for an app the client does not have (the reports that
+        // follow name no app at all)
+        if rng.chance(1, 6) {
+            for cs in base.script.checks.iter_mut() {
+                let Some(RespSpec::Reply(rep)) = cs.attempts.last_mut() else { continue };
+                let BodySpec::Doc(doc) = &mut rep.body else { continue };
+                if n_offered(doc) == 0 {
+                    continue;
+                }
+                for a in doc.apps.iter_mut() {
+                    if a.updatecheck.as_ref().map(|u| u.status == "ok").unwrap_or(false) {
+                        a.updatecheck = Some(UcSpec::status("noupdate"));
+                    }
+                }
+                doc.apps.push(doc_app("{unknown-9}", AppKind::Offer, &mut rng, false));
+                if !cs.results.is_empty() {
+                    cs.results = vec![InstRes::Installed];
+                }
+                base.shape.push("unknown-only-offer".into());
+                break;
+            }
+        }
         let sched_seed = rng.next_u64();
         for (pi, pos) in positions(&base).into_iter().enumerate() {
             for (ki, kind) in KINDS.iter().enumerate() {
